@@ -402,7 +402,7 @@ def work_special(unit):
 
 def run(tier, seed):
     run = Run("C08", tier, seed)
-    progs = kspace.programs(tier, "full")
+    progs = kspace.programs(tier, "full" if tier == "quick" else "wide")
     base = set(space.enumerate_programs(2, 3))
     # programs with a broadcast target are part of the space (generate_* accepts them)
     units = []
